@@ -106,6 +106,9 @@ mod client;
 mod handle;
 mod policy;
 mod state;
+#[cfg(feature = "__verif")]
+#[doc(hidden)]
+pub mod verif;
 
 pub use client::{PolicyClient, PolicyClientBuilder};
 pub use handle::{HandleError, PolicyStateHandle};
